@@ -2,6 +2,7 @@ package slog
 
 import (
 	"context"
+	"encoding/json"
 	"fmt"
 	logslog "log/slog"
 	"strings"
@@ -240,7 +241,12 @@ func (level Level) ShortTag(length int) string {
 }
 
 func (level *Level) UnmarshalJSON(text []byte) error {
-	return level.UnmarshalText(text)
+	// text is a JSON string (as MarshalJSON writes it): take the quotes off
+	var name string
+	if err := json.Unmarshal(text, &name); err != nil {
+		return err
+	}
+	return level.UnmarshalText([]byte(name))
 }
 
 func (level Level) MarshalJSON() ([]byte, error) {
